@@ -68,6 +68,13 @@ def run(ctx):
         cfg['report'] = 'mixed'
         cfg['disable_comments'] = False
         cases.append((g, cfg))
+    # one document whose ShExC text has more than 5000 lines (the serialisers write through a 5000-line buffer): 900 small classes
+    big = []
+    for k in range(900):
+        big += [(I('big%d' % k), RDF_TYPE, I('Big%d' % k)), (I('big%d' % k), EX + 'p%d' % (k % 7), L('v')), (I('big%d' % k), EX + 'q', I('big%d' % ((k + 1) % 900)))]
+    cfg_big = gen.default_cfg()
+    cfg_big.update(report='mixed', disable_comments=False)
+    cases.append((big, cfg_big))
     viol, dis, reproduced = [], [], set()
     stats = {"node_shapes": 0, "property_shapes": 0, "inverse_property_shapes": 0, "restrictions": {}}
     nontriv = 0
@@ -159,7 +166,7 @@ def run(ctx):
             samples.append({"nt": to_nt(g), "shacl": t_shacl})
     return base.std_result(ctx, cases, viol, dis, base.known_lines(kf, reproduced), stats, nontriv, samples,
                            "random graphs and configurations (disable_or_statements at its default; in a fifth of the cases enabled: ShExC OR against sh:or, "
-                           "implementation only); both serialisations of one Shaper parsed "
+                           "implementation only; one document of 900 classes, > 5000 ShExC lines); both serialisations of one Shaper parsed "
                            "(ShExC by the harness parser, SHACL Turtle by rdflib) and compared per shape as multisets of (direction, predicate, "
                            "restriction, min, max); non-trivial = some shape has >= 2 constraints", DEPS,
                            ["sheXer's vocabulary choices pinned by golden files (sh:dataType spelling, sh:property [ sh:inversePath p ]) are the encoding under test"])
